@@ -212,6 +212,8 @@ def v(unit, fn, clause, source):
 STATIC = [
     dict(engine="verus", unit="array", function="array::slice::validation", name="C06/array/slice_validation", source="vm/src/primitives.rs::array::slice (statements before the allocation)",
          clause="std.array slice: the allocation is only reached with start <= end <= len, so `end - start` cannot underflow and the copied range lies inside the array"),
+    dict(engine="verus", unit="array", function="ValueArray::get", name="C06/array/ValueArray_get", source="vm/src/value.rs::ValueArray::get",
+         clause="the unchecked element read behind array.index / iteration is reached only with index < len (the precondition of unsafe_get is proved at its 8 call sites; the element TYPE parameter chosen per representation is dropped by the rewrite and not checked); any other index is None"),
     dict(engine="verus", unit="apipush", function="AsyncPushable::async_status_push", name="C06/api/async_status_push", source="vm/src/api/mod.rs::AsyncPushable::async_status_push",
          clause="a failing primitive always ends as Status::Error with exactly its message pushed; producing the error value cannot itself fail (limit-ignoring allocation, no unwrap of a fallible push)"),
     dict(engine="verus", unit="io", function="write_slice_file", name="C06/io/write_slice_file", source="src/std_lib/io.rs::write_slice_file",
